@@ -444,13 +444,16 @@ def _record_event(ctx, flavour, seed, e):
 
 
 def _fuzz(ctx, scratch, M):
-    exe_a = build.exe("asan", "h_xmlfuzz", ["h_xmlfuzz.cc"])
+    rel_only = os.environ.get("VERIF_C37_FLAVOURS") == "rel"       # development aid (mutant triage without the ASan build)
     exe_r = build.exe("rel", "h_xmlfuzz", ["h_xmlfuzz.cc"])
+    exe_a = exe_r if rel_only else build.exe("asan", "h_xmlfuzz", ["h_xmlfuzz.cc"])
     info = _prepare(scratch, M, L=True)
     ctx.extra["fuzz_corpus"] = info
     lists = (str(scratch / "seeds.txt"), str(scratch / "dict.txt"))
     n_asan, n_rel = ctx.pick((3000, 17000), (48000, 400000))
     b_asan, b_rel = ctx.pick((250, 2000), (1000, 10000))
+    if rel_only:
+        n_asan = 0
     fseed = ctx.seed + 1
     jobs = []
     pos = 0
